@@ -34,6 +34,7 @@ SOFTWARE, EVEN IF ADVISED OF THE POSSIBILITY OF SUCH DAMAGE.
 #include <yara/sizedstr.h>
 #include <yara/strutils.h>
 #include <yara/types.h>
+#include <yara/verif.h>
 
 ////////////////////////////////////////////////////////////////////////////////
 // ss_compare returns:
@@ -46,6 +47,14 @@ int ss_compare(SIZED_STRING* s1, SIZED_STRING* s2)
   size_t i = 0;
 
   while (s1->length > i && s2->length > i && s1->c_string[i] == s2->c_string[i])
+    YR_VERIF_LOOP(
+        __CPROVER_assigns(i)
+        __CPROVER_loop_invariant(i <= s1->length && i <= s2->length)
+        __CPROVER_loop_invariant(__CPROVER_forall {
+          size_t vk;
+          (vk < i) ==> s1->c_string[vk] == s2->c_string[vk]
+        })
+        __CPROVER_decreases(s1->length - i))
   {
     i++;
   }
@@ -72,6 +81,15 @@ int ss_icompare(SIZED_STRING* s1, SIZED_STRING* s2)
   while (s1->length > i && s2->length > i &&
          yr_lowercase[(uint8_t) s1->c_string[i]] ==
              yr_lowercase[(uint8_t) s2->c_string[i]])
+    YR_VERIF_LOOP(
+        __CPROVER_assigns(i)
+        __CPROVER_loop_invariant(i <= s1->length && i <= s2->length)
+        __CPROVER_loop_invariant(__CPROVER_forall {
+          size_t vk;
+          (vk < i) ==> yr_lowercase[(uint8_t) s1->c_string[vk]] ==
+                           yr_lowercase[(uint8_t) s2->c_string[vk]]
+        })
+        __CPROVER_decreases(s1->length - i))
   {
     i++;
   }
@@ -129,6 +147,14 @@ bool ss_startswith(SIZED_STRING* s1, SIZED_STRING* s2)
     return false;
 
   for (uint32_t i = 0; i < s2->length; i++)
+    YR_VERIF_LOOP(
+        __CPROVER_assigns(i)
+        __CPROVER_loop_invariant(i <= s2->length)
+        __CPROVER_loop_invariant(__CPROVER_forall {
+          size_t vk;
+          (vk < i) ==> s1->c_string[vk] == s2->c_string[vk]
+        })
+        __CPROVER_decreases(s2->length - i))
   {
     if (s1->c_string[i] != s2->c_string[i])
       return false;
@@ -146,6 +172,15 @@ bool ss_istartswith(SIZED_STRING* s1, SIZED_STRING* s2)
     return false;
 
   for (uint32_t i = 0; i < s2->length; i++)
+    YR_VERIF_LOOP(
+        __CPROVER_assigns(i)
+        __CPROVER_loop_invariant(i <= s2->length)
+        __CPROVER_loop_invariant(__CPROVER_forall {
+          size_t vk;
+          (vk < i) ==> yr_lowercase[(uint8_t) s1->c_string[vk]] ==
+                           yr_lowercase[(uint8_t) s2->c_string[vk]]
+        })
+        __CPROVER_decreases(s2->length - i))
   {
     if (yr_lowercase[(uint8_t) s1->c_string[i]] !=
         yr_lowercase[(uint8_t) s2->c_string[i]])
@@ -164,6 +199,15 @@ bool ss_endswith(SIZED_STRING* s1, SIZED_STRING* s2)
     return false;
 
   for (uint32_t i = 0; i < s2->length; i++)
+    YR_VERIF_LOOP(
+        __CPROVER_assigns(i)
+        __CPROVER_loop_invariant(i <= s2->length)
+        __CPROVER_loop_invariant(__CPROVER_forall {
+          size_t vk;
+          (vk < i) ==> s1->c_string[s1->length - s2->length + vk] ==
+                           s2->c_string[vk]
+        })
+        __CPROVER_decreases(s2->length - i))
   {
     if (s1->c_string[s1->length - s2->length + i] != s2->c_string[i])
       return false;
@@ -181,6 +225,16 @@ bool ss_iendswith(SIZED_STRING* s1, SIZED_STRING* s2)
     return false;
 
   for (uint32_t i = 0; i < s2->length; i++)
+    YR_VERIF_LOOP(
+        __CPROVER_assigns(i)
+        __CPROVER_loop_invariant(i <= s2->length)
+        __CPROVER_loop_invariant(__CPROVER_forall {
+          size_t vk;
+          (vk < i) ==> yr_lowercase[(uint8_t)
+                           s1->c_string[s1->length - s2->length + vk]] ==
+                           yr_lowercase[(uint8_t) s2->c_string[vk]]
+        })
+        __CPROVER_decreases(s2->length - i))
   {
     if (yr_lowercase[(uint8_t) s1->c_string[s1->length - s2->length + i]] !=
         yr_lowercase[(uint8_t) s2->c_string[i]])
